@@ -1,2 +1,37 @@
-(* C15.  Theorems are added here as they are proved. *)
-From PJ.Model Require Import Base.
+(* C15 -- all parsing entry points and both integrations agree. *)
+From PJ.Model Require Import Base Terms Encoder Streams Decoder.
+From PJ.Proofs Require Import AgreeProofs DecoderProofs.
+
+(* The two decoders (two hand-written copies, as in the code) agree frame by frame on every
+   RDF 1.1 stream, from any state. *)
+Theorem C15_integrations_agree_on_parse :
+  forall (ak : adapter_kind) (po : poptions) (fs : list frame) (st : dstate),
+    forallb (fun f => forallb row_rdf11 (f_rows f)) fs = true ->
+    decode_frames Generic ak po fs st = decode_frames Rdflib ak po fs st.
+Proof. exact decode_frames_agree. Qed.
+Print Assumptions C15_integrations_agree_on_parse.
+
+(* Flat and grouped-concatenated are the same observation of the same per-frame results. *)
+Theorem C15_flat_is_grouped_concatenated :
+  forall (ig : integ) (ak : adapter_kind) (po : poptions) (fs : list frame) (st : dstate),
+    flat_obs (decode_frames ig ak po fs st) = rows_obs ig ak po (flat_map f_rows fs) st.
+Proof. exact flat_is_rows. Qed.
+Print Assumptions C15_flat_is_grouped_concatenated.
+
+(* The two term encoders produce the same rows and wire terms for RDF 1.1 statements. *)
+Theorem C15_serializers_agree_on_triples :
+  forall (terms : list term) (t : tenc) (rp : repeated),
+    forallb term_rdf11 terms = true -> encode_triple Generic terms t rp = encode_triple Rdflib terms t rp.
+Proof. exact encode_triple_agree. Qed.
+Print Assumptions C15_serializers_agree_on_triples.
+
+Theorem C15_serializers_agree_on_graph_names :
+  forall (g : term) (t : tenc),
+    match g with
+    | TDefault | TBnode _ => True
+    | TIri i => str_eqb i rdflib_default_graph = false
+    | _ => False
+    end ->
+    encode_graph_term Generic g t = encode_graph_term Rdflib (graph_corr g) t.
+Proof. exact encode_graph_term_agree. Qed.
+Print Assumptions C15_serializers_agree_on_graph_names.
